@@ -335,7 +335,22 @@ def mergeSR (src : Report) (rs : List Report) : Report := rs.foldl mergeOne src
 
 /-! ### paths: the lexical functions of Go's path/filepath that `fileIsDeleted` uses -/
 
-def splitSlash (s : String) : List String := s.splitOn "/"
+/-- `strings.Split(·, "/")` on the characters (structural, so the kernel can evaluate it) -/
+def splitChars : List Char → List (List Char)
+  | [] => [[]]
+  | c :: cs =>
+    if c = '/' then [] :: splitChars cs
+    else match splitChars cs with
+      | [] => [[c]]
+      | x :: xs => (c :: x) :: xs
+
+def splitSlash (s : String) : List String := (splitChars s.toList).map String.ofList
+
+/-- `strings.Join(·, "/")` -/
+def joinSlash : List String → List Char
+  | [] => []
+  | [x] => x.toList
+  | x :: y :: rest => x.toList ++ '/' :: joinSlash (y :: rest)
 
 /-- components of `path.Clean`: drop "" and ".", resolve ".." against the stack
     (kept when nothing to pop and the path is not rooted). -/
@@ -353,10 +368,9 @@ def cleanParts (rooted : Bool) : List String → List String → List String
 /-- `path.Clean` / `filepath.Clean` on unix. -/
 def clean (p : String) : String :=
   if p = "" then "." else
-  let rooted := p.startsWith "/"
-  let parts := cleanParts rooted (splitSlash p) []
-  let body := "/".intercalate parts
-  if rooted then "/" ++ body else if body = "" then "." else body
+  let rooted : Bool := p.toList.head? = some '/'
+  let body := joinSlash (cleanParts rooted (splitSlash p) [])
+  if rooted then String.ofList ('/' :: body) else if body.isEmpty then "." else String.ofList body
 
 def dropTrailingSlashes (cs : List Char) : List Char := (cs.reverse.dropWhile (· = '/')).reverse
 
@@ -388,6 +402,8 @@ def isPrefixParts : List String → List String → Bool
   | _ :: _, [] => false
   | c :: cs, f :: fs => c = f && isPrefixParts cs fs
 
+def whPrefix : List Char := ".wh.".toList
+
 /-- whiteout/resolver.go `fileIsDeleted` -/
 def fileIsDeleted (fp wh : String) : Bool :=
   let b := base wh
@@ -395,7 +411,7 @@ def fileIsDeleted (fp wh : String) : Bool :=
     if b = ".wh..wh..opq" then
       let c := dir wh
       if c = fp then none else some c
-    else if b.startsWith ".wh." then some (join2 (dir wh) (String.ofList (b.toList.drop 4)))
+    else if whPrefix.isPrefixOf b.toList then some (join2 (dir wh) (String.ofList (b.toList.drop 4)))
     else none
   match check with
   | none => false
